@@ -439,6 +439,10 @@ func clientSide(t *testing.T, r *vp.Recorder, kt, topic string, ti int, disc, th
 		case gerr == nil:
 			r.Outcome("altered-accepted")
 			r.Violation("client:accepted-altered-head:"+class, key, fmt.Sprintf("%s: GetHead returned %s for an altered head that the reference rejects (%s; reference cid %s signer %s)", when, got, why, rc, rsigner), nil)
+		case got.Defined():
+			// "a head query yields a CID only if ...": a rejected head yields
+			// none, not the rejected head's CID next to the error
+			r.Violation("client:rejected-head-still-yields-a-cid:"+class, key, fmt.Sprintf("%s: GetHead returned the error %q together with the CID %s (reference: %s)", when, gerr, got, why), nil)
 		default:
 			r.Outcome("rejected")
 		}
